@@ -62,8 +62,14 @@ def check_write(fd):
     return out
 
 
-def _load(b, debug, clip):
-    sink = io.StringIO()
+def _ascii_safe(tracks):
+    return all(v.isascii() for tr in tracks for d in tr for v in d.values() if isinstance(v, str))
+
+
+def _load(b, debug, clip, ascii_only=False):
+    # When the file holds no non-ASCII text, its debug output (byte dump + message reprs) is plain ASCII and has to
+    # work on an ASCII-only stream as well (a pipe under LANG=C, PYTHONIOENCODING=ascii).
+    sink = io.TextIOWrapper(io.BytesIO(), encoding='ascii', errors='strict') if ascii_only else io.StringIO()
     with contextlib.redirect_stdout(sink):
         return mido.MidiFile(file=io.BytesIO(b), debug=debug, clip=clip)
 
@@ -95,7 +101,7 @@ def check_read(case):
         for clip in (False, True):
             what = f'debug={debug} clip={clip}'
             try:
-                mid = _load(b, debug, clip)
+                mid = _load(b, debug, clip, _ascii_safe(fd['tracks']))
             except Exception as exc:  # noqa: BLE001
                 out.append(fail('read-raises', f'{what}: {exc!r}; bytes={list(b)[:80]}', exc=exc_sig(exc),
                                 cfg=what))
@@ -276,6 +282,12 @@ def volume_cases():
            {'type': 'end_of_track', 'time': 0}]
     fd = {'type': 1, 'tpb': 480, 'tracks': [ev] + [[{'type': 'end_of_track', 'time': 0}] for _ in range(270)]}
     yield {'kind': 'write', 'file': fd}
+    dumps = [{'type': 'sysex', 'data': [(i * 5) % 128 for i in range(600000)], 'time': 1},
+             {'type': 'control_change', 'channel': 1, 'control': 2, 'value': 3, 'time': 0},
+             {'type': 'control_change', 'channel': 1, 'control': 4, 'value': 5, 'time': 9},
+             {'type': 'sysex', 'data': [(i * 7) % 128 for i in range(600000)], 'time': 2}, {'type': 'end_of_track', 'time': 0}]
+    yield {'kind': 'read', 'file': {'type': 0, 'tpb': 24, 'tracks': [dumps]},
+           'choices': {'header_extra': 0, 'ev': [[[True, 0, 0] for _ in dumps]]}}
     yield {'kind': 'read', 'file': fd, 'choices': {'header_extra': 3, 'ev': [[[i % 3 != 0, i % 3, 0] for i in range(len(ev))]] +
                                                    [[[False, 0, 0]] for _ in range(270)]}}
 
